@@ -34,14 +34,30 @@ class AnsiFormatter(Formatter):
 
     def format(self, string, style=None):  # type: (str, Optional[Style]) -> str
         if style is not None:
-            self._formatter._style_stack.push(StyleConverter.convert(style))
+            tag = self._inline_tag(style)
 
-        formatted = self._formatter.colorize(string)
+            if tag:
+                # The tag engine returns a message without any tag as it is,
+                # whatever is on its style stack: let it apply the style itself.
+                string = "<{0}>{1}</{0}>".format(tag, string)
 
-        if style is not None:
-            self._formatter._style_stack.pop()
+        return self._formatter.colorize(string)
 
-        return formatted
+    @classmethod
+    def _inline_tag(cls, style):  # type: (Style) -> str
+        pastel_style = StyleConverter.convert(style)
+        parts = []
+
+        if pastel_style.foreground:
+            parts.append("fg=" + pastel_style.foreground)
+
+        if pastel_style.background:
+            parts.append("bg=" + pastel_style.background)
+
+        if pastel_style.options:
+            parts.append("options=" + ",".join(pastel_style.options))
+
+        return ";".join(parts)
 
     def remove_format(self, string):  # type: (str) -> str
         with self._formatter.colorized(False):
